@@ -283,6 +283,7 @@ fn check<C: Pv>(c: &Case) -> Report {
         recompose: matches!(c.what, What::ExtNpo | What::ExtNpoCoeff),
         debug_lookups: false,
         poseidon2: None,
+        poseidon1: None,
     };
     let setup = match C::setup(&circuit, &pk, &npo) {
         Ok(s) => s,
